@@ -73,7 +73,48 @@ let oracle_expected (exp : string) (impl : string) : string =
     | [] -> "FAIL:no observation")
   else "na"
 
+(* C08: lexing and parsing return, with a program or an error that carries a line.
+   ids "C08e:" mark inputs that cut an open construct or contain an illegal character:
+   those must be rejected. *)
+let oracle_c08 (id : string) (impl : string) : string =
+  let must_err = starts_with "C08e" id in
+  match split_on '\t' impl with
+  | [ "PARSE"; "OK"; _ ] -> if must_err then "FAIL:accepted silently, an error was required" else "ok"
+  | [ "PARSE"; "ERR"; n; line; _ ] ->
+      if int_of_string n < 1 then "FAIL:error list empty"
+      else if int_of_string line < 1 then "FAIL:error without a line number"
+      else "ok"
+  | "LEX" :: toks :: _ ->
+      if String.length toks >= 7 && String.sub toks (String.length toks - 7) 7 = "OVERRUN" then "FAIL:lexer produces tokens without end"
+      else "ok"
+  | "RENDER" :: "OK" :: _ -> if must_err then "FAIL:accepted silently, an error was required" else "ok"
+  | "RENDER" :: "ERR" :: line :: _ -> if line = "?" then "FAIL:error without a line number" else "ok"
+  | "HANG" :: _ -> "FAIL:did not return (hang)"
+  | "PANIC" :: _ -> "FAIL:panic"
+  | "CRASH" :: _ -> "FAIL:process crashed"
+  | "PARSE" :: "NILPROG" :: _ -> "FAIL:nil program without a recorded error"
+  | _ -> "FAIL:unexpected observation"
+
+(* C09: rendering returns output or an error value, never panics; evaluation errors carry a line *)
+let oracle_c09 (impl : string) : string =
+  match split_on '\t' impl with
+  | "RENDER" :: "OK" :: _ -> "ok"
+  | "RENDER" :: "ERR" :: line :: _ :: msg :: _ ->
+      let m = unhex msg in
+      if line = "0" && not (starts_with "unsupported type" m || starts_with "loop variable is reserved" m)
+      then "FAIL:evaluation error without a line: " ^ m
+      else "ok"
+  | "HANG" :: _ -> "na"
+  | "PANIC" :: msg :: _ -> "FAIL:panic: " ^ unhex msg
+  | "PANIC" :: _ -> "FAIL:panic"
+  | "CRASH" :: _ -> "FAIL:process crashed"
+  | _ -> "FAIL:unexpected observation"
+
 let oracle (f : string list) (impl : string) : string =
+  match f with
+  | id :: _ when starts_with "C08" id -> oracle_c08 id impl
+  | id :: _ when starts_with "C09" id -> oracle_c09 impl
+  | _ ->
   match expected_field f with
   | Some exp -> oracle_expected exp impl
   | None ->
